@@ -3,6 +3,7 @@
 //! prints one JSON line {"scenario":..,"observed":{..},"violation":bool,"why":".."}; exit 0 = no violation, 1 = violation, 3 = bad scenario
 use serde_json::{json, Value};
 
+mod c01;
 mod c07;
 mod c02;
 mod c03;
@@ -40,6 +41,8 @@ fn main() {
 
 fn run(name: &str, args: &Value) -> Value {
     match name {
+        "c01_messages" => c01::messages(args),
+        "c01_blocking_panic" => c01::blocking_panic(args),
         "c07_ws" => c07::ws(args),
         "c07_http" => c07::http(args),
         "c19_chunking" => c19::chunking(args),
